@@ -8,18 +8,26 @@ MANIFEST_TEXT = ("Lean 4 theorems for all element sizes, alignments, pool sizes,
                  "Pool slot geometry is sound (>=1 slot per chunk, slots fit, hold a T and the free-list pointer, aligned); slots are "
                  "disjoint/aligned/inside their chunk; the invariant free list + live set = all slots exactly once is preserved, hence "
                  "allocate never returns a live block, a block is returned again only after it was freed, live blocks are pairwise "
-                 "disjoint and aligned for T, ~Pool deletes every chunk exactly once; PoolAllocator refuses n != 1; Malloc/"
-                 "AlignedAllocator refuse every request whose byte size overflows size_t and otherwise ask for exactly n*sizeof(T) "
-                 "bytes with the promised alignment; DebugAllocator blocks end exactly at the guard page, are aligned, overflow "
-                 "requests are refused, deallocate finds every recorded block. The geometry, validation and page formulas the "
-                 "theorems talk about are regenerated from the four headers on every run; the state machines are run against the "
-                 "real allocators (25 element types, sizeof 1..128, alignof 1..64) on >=20k random histories per run with an "
-                 "interval-map/tag/ASan oracle deciding the property itself.")
+                 "disjoint and aligned for T, ~Pool deletes every chunk exactly once; histories include the refused requests "
+                 "(PoolAllocator n != 1, free(nullptr), free of an address outside every chunk, allocation while operator new "
+                 "fails): exactly those are refused and a refusal leaves the pool unchanged; Malloc/AlignedAllocator refuse every "
+                 "request whose byte size overflows size_t and otherwise ask for exactly n*sizeof(T) bytes with an alignment that "
+                 "suffices for T (MallocAllocator also for over-aligned T); DebugAllocator blocks end exactly at the guard page, "
+                 "are aligned, overflow requests are refused, deallocate (with the size or with n = 0) finds every recorded "
+                 "block, live blocks are pairwise disjoint and never reach into any guard page, and the munmap calls (incl. the "
+                 "destructor's) are a permutation of the mmap calls (same address, same length). The geometry, validation and "
+                 "page formulas the theorems talk about are regenerated from the four headers on every run; the state machines "
+                 "are run against the real allocators (28 element types, sizeof 1..1000, alignof 1..128) on >=20k random "
+                 "histories per run with an interval-map/tag/ASan oracle (plus recorded operator new/mmap/munmap calls) deciding "
+                 "the property itself.")
 MANIFEST_NOTE = ("Partial: malloc/aligned_alloc/operator new/mmap/mprotect are trusted (modelled as parameters); the proof is "
                  "about the model, whose fidelity rests on the translator (formulas) and on differential execution (state machines). "
-                 "LP64 assumed (pointer 8 bytes, size_t 64 bit). MallocAllocator is only exercised for alignof(T) <= alignof(max_align_t) "
-                 "(it promises malloc's alignment). Under ASan aligned_alloc is shimmed to memalign (ASan enforces C11's size%alignment "
-                 "rule that glibc/C17 do not). Requests between 4 MiB and 2^47 bytes (where the OS decides) are not generated.")
+                 "LP64 assumed (pointer 8 bytes, size_t 64 bit, alignof(max_align_t) 16). AlignedAllocator<T,A> with an explicit A that "
+                 "alignof(T) does not divide promises A only (not generated). Under ASan aligned_alloc is shimmed to memalign (ASan "
+                 "enforces C11's size%alignment rule that glibc/C17 do not). Requests between 64 MiB and 2^47 bytes (where the OS "
+                 "decides) are not generated. Pool blocks are compared by (chunk, slot) name, so the LIFO order of the free list is "
+                 "part of the compared behaviour. DebugAllocator aborts (wrong size/type on deallocate, lost allocations) are "
+                 "modelled but cannot be executed in-process.")
 TECHNIQUE = "Lean 4 proof over allocator state machines + translator for geometry/validation/page formulas + trace correspondence with interval-map oracle under ASan"
 TRANSLATORS = [tr_c15.translate]
 HARNESS = dict(
@@ -28,22 +36,25 @@ HARNESS = dict(
     libs=[],
     flags=["-O0"],   # ~150 small template instantiations: -O0 compiles in 20 s instead of 65 s; the sanitizers stay on
 )
-RULE = ("case = one allocator instance (kind x element type from 25 (sizeof,alignof) pairs x pool size in {1,sz,sz+1,2sz,7sz,1000} "
-        "or requested alignment in {default,16,64,..}) and a whole allocate/free history (1..60 ops quick, ..160 thorough; fill/"
-        "drain/churn phases sized around elements+-1; free order random/oldest/newest/middle; n in {0,1,2,..} and around max_size, "
-        "wrapping products, 2^63, SIZE_MAX; debug sizes around page multiples); distinct = distinct op lines; non-trivial = every "
-        "case whose oracle ran (unsupported configurations are trivial)")
+RULE = ("case = one allocator instance (kind x element type from 28 (sizeof,alignof) pairs x pool size in {0,1,sz,sz+1,2sz,7sz,1000,4096,..} "
+        "or requested alignment in {default,16,64,..}) and a whole allocate/free history (1..60 ops quick, ..160 thorough, 1 in 12 "
+        "long enough to fill two chunks (<=600); fill/drain/churn phases sized around elements+-1; free order random/oldest/"
+        "newest/middle; refused requests interleaved: n != 1, free(nullptr), free(foreign / just behind / just in front of a "
+        "chunk), allocate while operator new throws; n in {0,1,2,..} and around max_size, wrapping products, 2^63, SIZE_MAX; "
+        "debug sizes around page multiples, deallocate with the size or with 0; 3% requests of 4..64 MiB); distinct = distinct "
+        "op lines; non-trivial = every case whose oracle ran (unsupported configurations are trivial)")
 ASSUMPTIONS = [
     "the state machines in lean/DuneVerif/Model/C15.lean are hand-written; their fidelity to the headers rests on this differential run",
     "slot geometry, request validation and DebugAllocator page arithmetic are regenerated from the headers by tools/translators/tr_c15.py",
     "a formula rewritten in the source into a textually different one that agrees with the form the proofs were written against on the translator's whole grid (sizeof 1..130, alignof 1..128, ~30 pool sizes; counts around max_size; capacities around page multiples) is emitted in that known form, with the source text kept as a comment in Gen/C15.lean; any value difference on the grid emits the source's own expression",
-    "LP64 target: sizeof(void*) = alignof(void*) = 8, size_t has 64 bits, page size 4096 in the corpus files",
+    "LP64 target: sizeof(void*) = alignof(void*) = 8, size_t has 64 bits, alignof(std::max_align_t) = 16, page size 4096 in the corpus files",
     "operator new / malloc / aligned_alloc / mmap return disjoint, suitably aligned, usable memory (trusted, not modelled)",
-    "requests below 4 MiB are expected to be served, requests of 2^47 bytes and more cannot be served; nothing in between is generated",
-    "pool histories are valid: only blocks obtained from the pool and not yet freed are given back (plus nullptr / a foreign pointer, which must throw)",
+    "requests up to 64 MiB are expected to be served, requests of 2^47 bytes and more cannot be served; nothing in between is generated",
+    "pool histories are valid: only blocks obtained from the pool and not yet freed are given back (plus nullptr / addresses outside every chunk, which must throw because the harness is compiled without NDEBUG)",
+    "debug histories are valid: deallocate is called with pointers of live blocks and their size (or 0) and element type; mmap returns page-aligned ranges disjoint from the mappings in use",
 ]
 TRUSTED = ["g++/libstdc++, ASan/UBSan, glibc malloc_usable_size, /proc/self/maps as oracle inputs", "translator tr_c15.py",
-           "harness/cxx_c15.cc (interval map, tags, replaced operator new/delete, aligned_alloc shim) + Driver/C15.lean parsing/printing"]
+           "harness/cxx_c15.cc (interval map, tags, replaced operator new/delete, interposed mmap/munmap, aligned_alloc shim) + Driver/C15.lean parsing/printing"]
 
 
 def batches(tier, seed):
